@@ -11,7 +11,8 @@
    that covers it.  Both are stated for ALL parameters of D (destination states, thresholds, pooled buffers, the
    behaviour of zlib, fuel). *)
 From Coq Require Import List NArith ZArith.
-From GoMC Require Import Base.Bytes Base.Dec Gen.Consts Model.C09 Proofs.C09 Proofs.C09_writer Proofs.C09_more Proofs.C09_inst Proofs.C09_gen.
+From GoMC Require Import Base.Bytes Base.Dec Gen.Consts Model.C09 Proofs.C09 Proofs.C09_writer Proofs.C09_more Proofs.C09_inst Proofs.C09_gen Proofs.C09_gen2.
+From GoMC Require Gen.C05gen Gen.C11gen Gen.C13gen Proofs.C11_tie_io Proofs.C13_skel_interp Model.C12.
 From GoMC Require Gen.C09gen Proofs.C09_idioms Proofs.C06_tie_r Proofs.C07_skel Proofs.C16_skel Model.C07_syntax.
 From GoMC Require Model.C05 Model.C06 Model.C07 Model.C16 Model.C11 Model.C01.
 Import ListNotations.
@@ -302,6 +303,55 @@ Proof. exact Proofs.C09_idioms.io_table_recorded. Qed.
 Theorem C09_io_policy : Proofs.C09_idioms.policy Gen.C09gen.c09_io_calls = true.
 Proof. exact Proofs.C09_idioms.io_policy_holds. Qed.
 
+(* ================================================================== phase 4
+   VarInt.ReadFrom / VarLong.ReadFrom and their byte sources are now TRANSLATED too (Gen/C05gen.v): the field theorems
+   are restated CLOSED - no reader is a parameter any more; br = whether the caller's io.Reader is an io.ByteReader,
+   i.e. the two branches of CreateByteReader / readByte. *)
+Theorem C09_fragment_fields_closed : fields_closed (@frag_invariant).
+Proof. exact (fields_closed_of (@frag_invariant) (@robust_frag_invariant)). Qed.
+Theorem C09_eof_fields_closed : fields_closed (@fault_safe).
+Proof. exact (fields_closed_of (@fault_safe) (@robust_fault_safe)). Qed.
+(* BitStorage.ReadFrom (Gen/C11gen.v), closed over the translated VarInt reader, any destination storage *)
+Theorem C09_fragment_bitstorage_translated : forall br b,
+  frag_invariant (Gen.C11gen.c11_BitStorage_ReadFrom (Gen.C05gen.packet_VarInt_ReadFrom_io br) b).
+Proof. exact (fun br b => robust_frag_invariant _ (g_BitStorage_closed br b)). Qed.
+Theorem C09_eof_bitstorage_translated : forall br b,
+  fault_safe (Gen.C11gen.c11_BitStorage_ReadFrom (Gen.C05gen.packet_VarInt_ReadFrom_io br) b).
+Proof. exact (fun br b => robust_fault_safe _ (g_BitStorage_closed br b)). Qed.
+Theorem C09_write_bitstorage_translated : forall st sp,
+  Forall (fun l => l < 2 ^ 64) (Model.C11.data st) -> lenN (Model.C11.data st) < 2 ^ 59 ->
+  writer_safe (bs_calls st) (out_of (Gen.C11gen.c11_BitStorage_WriteTo (Some (Proofs.C11_tie_io.inj st sp)))).
+Proof. exact gw_BitStorage. Qed.
+(* level/chunk.go: Section / BlockEntity / Chunk ReadFrom as the element-by-element interpretation (Proofs/
+   C13_skel_interp.v interp_r) of the element lists c13.go extracts (Gen/C13gen.v); Section for ANY palette-container
+   reader that issues no bare Read *)
+Theorem C09_fragment_section_translated : forall cont (pc_read : bool -> cont -> dec (cont * N)),
+  (forall b d, robust (pc_read b d)) ->
+  forall s, frag_invariant (Proofs.C13_skel_interp.interp_r (Proofs.C13_skel_interp.sec_renv cont pc_read) Gen.C13gen.c13_Section_ReadFrom_fields s).
+Proof. exact (fun cont pc H s => robust_frag_invariant _ (g_section cont pc H s)). Qed.
+Theorem C09_eof_section_translated : forall cont (pc_read : bool -> cont -> dec (cont * N)),
+  (forall b d, robust (pc_read b d)) ->
+  forall s, fault_safe (Proofs.C13_skel_interp.interp_r (Proofs.C13_skel_interp.sec_renv cont pc_read) Gen.C13gen.c13_Section_ReadFrom_fields s).
+Proof. exact (fun cont pc H s => robust_fault_safe _ (g_section cont pc H s)). Qed.
+Theorem C09_fragment_blockentity_translated : forall fuel st,
+  frag_invariant (Proofs.C13_skel_interp.interp_r (Proofs.C13_skel_interp.be_renv fuel) Gen.C13gen.c13_BlockEntity_ReadFrom_fields st).
+Proof. exact (fun fuel st => robust_frag_invariant _ (g_blockentity fuel st)). Qed.
+Theorem C09_eof_blockentity_translated : forall fuel st,
+  fault_safe (Proofs.C13_skel_interp.interp_r (Proofs.C13_skel_interp.be_renv fuel) Gen.C13gen.c13_BlockEntity_ReadFrom_fields st).
+Proof. exact (fun fuel st => robust_fault_safe _ (g_blockentity fuel st)). Qed.
+Theorem C09_fragment_chunk_translated : forall cont fuel d st,
+  frag_invariant (Proofs.C13_skel_interp.interp_r (Proofs.C13_skel_interp.chunk_renv cont fuel d) Gen.C13gen.c13_Chunk_ReadFrom_fields st).
+Proof. exact (fun cont fuel d st => robust_frag_invariant _ (g_chunk cont fuel d st)). Qed.
+Theorem C09_eof_chunk_translated : forall cont fuel d st,
+  fault_safe (Proofs.C13_skel_interp.interp_r (Proofs.C13_skel_interp.chunk_renv cont fuel d) Gen.C13gen.c13_Chunk_ReadFrom_fields st).
+Proof. exact (fun cont fuel d st => robust_fault_safe _ (g_chunk cont fuel d st)). Qed.
+(* PaletteContainer.ReadFrom: on the MODEL pc_read (the translated body is tied to it by an interpretation over the
+   contiguous input, Proofs/C12_skel_read.v, not by a Base.Dec term) - the instance for the Section theorem above *)
+Theorem C09_fragment_palette_container : forall fuel c, frag_invariant (Model.C12.pc_read fuel c).
+Proof. exact (fun fuel c => robust_frag_invariant _ (pc_read_robust fuel c)). Qed.
+Theorem C09_eof_palette_container : forall fuel c, fault_safe (Model.C12.pc_read fuel c).
+Proof. exact (fun fuel c => robust_fault_safe _ (pc_read_robust fuel c)). Qed.
+
 Print Assumptions C09_src_is_chunked.
 Print Assumptions C09_fragment_generic.
 Print Assumptions C09_fault_generic.
@@ -376,3 +426,16 @@ Print Assumptions C09_write_rcon_translated.
 Print Assumptions C09_write_frame_translated.
 Print Assumptions C09_io_idioms_recorded.
 Print Assumptions C09_io_policy.
+Print Assumptions C09_fragment_fields_closed.
+Print Assumptions C09_eof_fields_closed.
+Print Assumptions C09_fragment_bitstorage_translated.
+Print Assumptions C09_eof_bitstorage_translated.
+Print Assumptions C09_write_bitstorage_translated.
+Print Assumptions C09_fragment_section_translated.
+Print Assumptions C09_eof_section_translated.
+Print Assumptions C09_fragment_blockentity_translated.
+Print Assumptions C09_eof_blockentity_translated.
+Print Assumptions C09_fragment_chunk_translated.
+Print Assumptions C09_eof_chunk_translated.
+Print Assumptions C09_fragment_palette_container.
+Print Assumptions C09_eof_palette_container.
